@@ -43,7 +43,7 @@ Ltac tie_case :=
       | _ => destruct x eqn:?
       end
   end.
-Ltac tie_auto := intros; repeat (reflexivity || (progress cbv beta iota zeta) || tie_case).
+Ltac tie_auto := intros; repeat (reflexivity || (progress cbv beta iota zeta delta [andb orb negb]) || tie_case).
 
 (* unfold the GoSem wrappers down to the Lib/DecArith operations the models are written in *)
 Ltac unfold_gosem :=
@@ -106,3 +106,10 @@ Proof.
   intros x H. destruct (fits_int x) eqn:E; [reflexivity|].
   rewrite (not_fits_int_int64 _ E) in H. discriminate.
 Qed.
+
+(* ---------------- (value, error) results ----------------
+   A Go function with results (T, error) is regenerated with result type outcome (Z * Z), the
+   second component being the error (0 = nil).  The models return outcome Z with Err code. *)
+Definition res_of (o : outcome (Z * Z)) : outcome Z :=
+  match o with Ok (v, e) => if e =? 0 then Ok v else Err e | Err _ => Panic | Panic => Panic end.
+Definition ret (v e : Z) : outcome Z := if e =? 0 then Ok v else Err e.
